@@ -27,6 +27,8 @@ def jaccard_rule(prog, rep, ctx):
     where = f"{ctx}.jaccard_index"
     counting = ctx == "CountingBloomFilter"
     rets = [p for p in ps if p.exit[0] == "return" and p.exit[1] not in (C(None),)]
+    if counting and _jaccard_by_counting_comprehensions(prog, rep, ctx, f, rets, where):
+        return
     ratio = None
     for p in rets:
         v = p.exit[1]
@@ -114,6 +116,56 @@ def jaccard_rule(prog, rep, ctx):
         rep.ok("C13.jaccard", f"{where}: {'non-zero tables' if counting else 'popcount(a&b)/popcount(a|b)'} over the full range, empty union -> 1.0")
 
 
+def _jaccard_by_counting_comprehensions(prog, rep, ctx, f, rets, where) -> bool:
+    """the other design: both counts are sum(1 for a, b in zip(<all cells of self>, <all cells of second>) if <test>) and the result is
+    their ratio, 1.0 for an empty union.  True when that design was recognised (and judged)"""
+    from ..expr import posform, renorm
+    from ._setops import both_nonzero, either_nonzero, zipped_cells
+
+    def count_of(v):
+        """(test in position form, a, b) of sum(1 for ... in zip(...) if test)"""
+        v = strip_epochs(v)
+        if not (v[0] == "call" and v[1] == ("g", "sum") and len(v[2]) == 1 and v[2][0][0] == "comp"):
+            return None
+        comp = v[2][0]
+        if len(comp[3]) != 1 or strip_epochs(comp[2]) != C(1) or len(comp[3][0][3]) != 1:
+            return None
+        zc = zipped_cells(prog, ctx, comp[3][0])
+        if zc is None:
+            return None
+        return renorm(posform(strip_epochs(comp[3][0][3][0]))), zc[1], zc[2]
+    ratios = []
+    for p in rets:
+        v = strip_epochs(p.exit[1])
+        if v[0] == "bin" and v[1] == "/":
+            n_, d_ = count_of(v[2]), count_of(v[3])
+            if n_ is None or d_ is None:
+                return False
+            ratios.append((p, v, n_, d_))
+        elif v[0] == "phi" and v[2][0] == "bin" and v[2][1] == "/":
+            return False  # conditional-expression spellings are left to the general rule
+    if not ratios:
+        return False
+    for (p, v, (tn, a, b), (td, a2, b2)) in ratios:
+        if not both_nonzero(tn, a, b) or not either_nonzero(td, a2, b2):
+            rep.bad("C13.jaccard", where, f"counts {nshow(tn)} / {nshow(td)}",
+                    f"the numerator counts positions where {nshow(tn)} and the denominator positions where {nshow(td)}; expected both cells non-zero over either cell non-zero",
+                    f.where(p.exit[2]))
+            return True
+    # empty union -> 1.0, decided on the denominator
+    den = strip_epochs(ratios[0][1][3])
+    one = [p for p in rets if strip_epochs(p.exit[1]) == C(1.0)]
+    okz = bool(one) and all(any((strip_epochs(c.atom) == ("cmp", "==", den, C(0)) and c.truth) or (strip_epochs(c.atom) == den and not c.truth) or
+                                (strip_epochs(c.atom) == ("cmp", "!=", den, C(0)) and not c.truth) or (strip_epochs(c.atom) == ("cmp", ">", den, C(0)) and not c.truth)
+                                for c in p.conds) for p in one)
+    others = [p for p in rets if strip_epochs(p.exit[1]) != C(1.0) and p not in [r[0] for r in ratios]]
+    if not okz or others:
+        rep.bad("C13.jaccard", where, "empty union", "the result is not 1.0 exactly when the union count is 0 (and the ratio otherwise)", f.where())
+        return True
+    rep.ok("C13.jaccard", f"{where}: counts by comprehension over zip of all cells (both non-zero / either non-zero), empty union -> 1.0")
+    return True
+
+
 def counting_intersection(prog, rep):
     ctx = "CountingBloomFilter"
     f = prog.method(ctx, "intersection")
@@ -157,8 +209,55 @@ def counting_intersection(prog, rep):
         if not result_from_receiver(rep, "C13.intersection", where, ps, "CountingBloomFilter"):
             return
         rep.ok("C13.intersection", f"{where}: stored exactly where both cells are non-zero, full range")
+    elif _intersection_in_one_expression(prog, rep, ctx, f, ps, where):
+        pass
     else:
         rep.bad("C13.intersection", where, "no store", "intersection never stores", f.where())
+
+
+def _intersection_in_one_expression(prog, rep, ctx, f, ps, where) -> bool:
+    """the other design: the result's cells are built in one expression, array(tc, (V if <both cells in use> else 0 for a, b in
+    zip(<all cells of self>, <all cells of second>))), with V the (clamped) sum or the smaller count.  True when that design was
+    recognised (and judged)"""
+    from ..expr import posform, renorm
+    from ._setops import both_nonzero, result_from_receiver, zipped_cells
+    judged = False
+    for p in ps:
+        if p.exit[0] != "return" or strip_epochs(p.exit[1])[0] != "new":
+            continue
+        res = strip_epochs(p.exit[1])
+        sets = [e for e in p.events if e.kind == "setfield" and e.name == "_bloom" and strip_epochs(e.base) == res]
+        if not sets:
+            continue
+        v = strip_epochs(sets[-1].value)
+        if not (v[0] == "newb" and v[1] == "array" and len(v[3]) == 2 and v[3][1][0] == "comp" and len(v[3][1][3]) == 1 and not v[3][1][3][0][3]):
+            continue
+        comp = v[3][1]
+        zc = zipped_cells(prog, ctx, comp[3][0])
+        if zc is None:
+            rep.bad("C13.intersection", where, "result built over something else", f"the result array is built over {nshow(comp[3][0][2])}, not over exactly the allocated cells of both operands", sets[-1].where())
+            return True
+        judged = True
+        lid, a, b = zc
+        elt = renorm(posform(strip_epochs(comp[2])))
+        s_ = norm(("bin", "+", a, b))
+        values = [canon(s_), canon(("call", ("g", "min"), (s_, C(2**32 - 1)), ())), canon(("call", ("g", "min"), (a, b), ()))]
+        ok = False
+        if elt[0] == "phi":
+            cnd, tv, fv = elt[1], elt[2], elt[3]
+            if canon(fv) == canon(C(0)) and canon(tv) in values and both_nonzero(cnd, a, b):
+                ok = True
+            neg = cnd[2] if (cnd[0] == "un" and cnd[1] == "not") else None
+            if not ok and neg is not None and canon(tv) == canon(C(0)) and canon(fv) in values and both_nonzero(neg, a, b):
+                ok = True
+        if not ok:
+            rep.bad("C13.intersection", where, f"element {nshow(comp[2])}",
+                    f"result cell is {nshow(comp[2])}; expected the (clamped) sum or the smaller count exactly where both cells are non-zero, else 0", sets[-1].where())
+            return True
+    if judged:
+        if result_from_receiver(rep, "C13.intersection", where, ps, "CountingBloomFilter"):
+            rep.ok("C13.intersection", f"{where}: result array built in one expression, set exactly where both cells are non-zero, over all cells")
+    return judged
 
 
 def join_guard(prog, rep, ctx):
@@ -248,6 +347,15 @@ from ..selftest import Mutant, del_stmt, insert_stmt, replace_expr, replace_stmt
 
 _B, _CB, _CM = "blooms/bloom.py", "blooms/countingbloom.py", "countminsketch/countminsketch.py"
 MUTANTS = [
+    Mutant("counting intersection built in one expression over zip (same cells)", _CB,
+           replace_stmt("CountingBloomFilter", "intersection", "for i in range(self.bloom_length)",
+                        "res._bloom = array(self._typecode, (min(a + b, UINT32_T_MAX) if a and b else 0 for a, b in zip(self._bloom, second._bloom)))"), expect="silent"),
+    Mutant("counting intersection built in one expression, cells kept where a & b is non-zero", _CB,
+           replace_stmt("CountingBloomFilter", "intersection", "for i in range(self.bloom_length)",
+                        "res._bloom = array(self._typecode, (min(a + b, UINT32_T_MAX) if a & b else 0 for a, b in zip(self._bloom, second._bloom)))"), rule="C13.intersection"),
+    Mutant("counting intersection built in one expression, clamped at the 64-bit limit", _CB,
+           replace_stmt("CountingBloomFilter", "intersection", "for i in range(self.bloom_length)",
+                        "res._bloom = array(self._typecode, (min(a + b, UINT64_T_MAX) if a and b else 0 for a, b in zip(self._bloom, second._bloom)))"), rule="C13.intersection"),
     Mutant("counting intersection: > 0 -> >= 0", _CB, swap_cmp("CountingBloomFilter", "intersection", _ast.Gt, _ast.GtE), rule="C13.intersection"),
     Mutant("counting intersection: and -> or", _CB, replace_expr("CountingBloomFilter", "intersection", "self._bloom[i] > 0 and second._bloom[i] > 0", "self._bloom[i] > 0 or second._bloom[i] > 0"), rule="C13.intersection"),
     Mutant("counting jaccard: > 0 -> > 1", _CB, replace_expr("CountingBloomFilter", "jaccard_index", "self._bloom[i] > 0 and second._bloom[i] > 0", "self._bloom[i] > 1 and second._bloom[i] > 0"), rule="C13.jaccard"),
